@@ -16,6 +16,11 @@
             gen_open_size_path / gen_open_key), then S3RangeFile with that size whose every read is a ranged GET
             against the bucket.
    Stream k : open_file(k).read().
+   ReadTag k : read_file_with_etag(k), contents only (the local backend's tag is None).
+   WriteCas k v : the compare-and-swap writer used as a writer: on S3 read_file_with_etag(k) for the current tag
+            (absent: create-if-absent) and then write_file_cas(k, v, tag); a backend without CAS (local) writes
+            plainly.  In a sequential history the precondition holds, so the contract is that of Write.  The
+            model's entity tag of an object is its content (fakes3: md5 of the content).
 
    Keys of the contract are lists of path segments; the backends receive the "/"-joined string, as the
    library does.  Listing order is an artefact of the representation (insertion order); the harness
@@ -27,7 +32,7 @@ Import ListNotations.
 Definition bytes := list ascii.
 Definition key := list str.
 
-Inductive errk := NotFound | IsDir | NotDir | ClientErr.
+Inductive errk := NotFound | IsDir | NotDir | ClientErr | Conflict.
 
 Inductive op (K : Type) :=
 | Write (k : K) (v : bytes)
@@ -38,9 +43,11 @@ Inductive op (K : Type) :=
 | Size (k : K)
 | Mtime (k : K)
 | Open (k : K) (prog : list rop)
-| Stream (k : K).
+| Stream (k : K)
+| WriteCas (k : K) (v : bytes)
+| ReadTag (k : K).
 Arguments Write {K}. Arguments Read {K}. Arguments Exists {K}. Arguments ListDir {K}.
-Arguments Delete {K}. Arguments Size {K}. Arguments Mtime {K}. Arguments Open {K}. Arguments Stream {K}.
+Arguments Delete {K}. Arguments Size {K}. Arguments Mtime {K}. Arguments Open {K}. Arguments Stream {K}. Arguments WriteCas {K}. Arguments ReadTag {K}.
 
 Inductive obs :=
 | OUnit                     (* returned None / a timestamp we do not compare *)
@@ -57,6 +64,7 @@ Definition map_op {K K'} (f : K -> K') (o : op K) : op K' :=
   | Write k v => Write (f k) v | Read k => Read (f k) | Exists k => Exists (f k) | ListDir d => ListDir (f d)
   | Delete k => Delete (f k) | Size k => Size (f k) | Mtime k => Mtime (f k)
   | Open k prog => Open (f k) prog | Stream k => Stream (f k)
+  | WriteCas k v => WriteCas (f k) v | ReadTag k => ReadTag (f k)
   end.
 
 Fixpoint run {S E : Type} (step : S -> E -> S * obs) (s : S) (es : list E) : S * list obs :=
@@ -115,7 +123,7 @@ Definition wf_key (k : key) : Prop := k <> [] /\ Forall wf_seg k.
 Definition wf_op (o : op key) : Prop :=
   match o with
   | ListDir d => Forall wf_seg d          (* the table root [] is a legal directory *)
-  | Write k _ | Read k | Exists k | Delete k | Size k | Mtime k | Stream k => wf_key k
+  | Write k _ | Read k | Exists k | Delete k | Size k | Mtime k | Stream k | WriteCas k _ | ReadTag k => wf_key k
   | Open k prog => wf_key k /\ Forall wf_rop prog
   end.
 
@@ -123,7 +131,7 @@ Definition wf_op (o : op key) : Prop :=
 Definition op_key (o : op key) : list key :=
   match o with
   | ListDir _ => []
-  | Write k _ | Read k | Exists k | Delete k | Size k | Mtime k | Open k _ | Stream k => [k]
+  | Write k _ | Read k | Exists k | Delete k | Size k | Mtime k | Open k _ | Stream k | WriteCas k _ | ReadTag k => [k]
   end.
 
 (* no key is a directory of another key: the key families a file system can hold *)
@@ -139,8 +147,8 @@ Definition file_obs (v : bytes) (prog : list rop) : obs := let '(os, final) := r
 
 Definition spec_step (st : store) (o : op key) : store * obs :=
   match o with
-  | Write k v => (upsert key_eqb k v st, OUnit)
-  | Read k => (st, match lookup key_eqb k st with Some v => OBytes v | None => OErr NotFound end)
+  | Write k v | WriteCas k v => (upsert key_eqb k v st, OUnit)
+  | Read k | ReadTag k => (st, match lookup key_eqb k st with Some v => OBytes v | None => OErr NotFound end)
   | Exists k => (st, OBool (has key_eqb k st))
   | ListDir d => (st, OList (map join (filter (under d) (map fst st))))
   | Delete k => (remove key_eqb k st, OUnit)
@@ -163,6 +171,15 @@ Definition s3_head_object (b : bucket) (k : str) : s3res bytes :=
   match lookup str_eqb k b with Some v => S3Ok v | None => S3Fail (lit "404") end.
 Definition s3_put_object (b : bucket) (k : str) (v : bytes) : bucket := upsert str_eqb k v b.
 Definition s3_delete_object (b : bucket) (k : str) : bucket := remove str_eqb k b.
+(* conditional PUT: If-Match <tag> (Some) / If-None-Match * (None); the tag of an object is its content *)
+Definition tag_matches (cur want : option bytes) : bool :=
+  match cur, want with
+  | None, None => true
+  | Some x, Some y => str_eqb x y
+  | _, _ => false
+  end.
+Definition s3_put_if (b : bucket) (k : str) (tag : option bytes) (v : bytes) : option bucket :=
+  if tag_matches (lookup str_eqb k b) tag then Some (upsert str_eqb k v b) else None.
 Definition s3_list_objects (b : bucket) (p : str) : list str := filter (fun k => starts_with k p) (map fst b).
 
 (* GetObject with Range: bytes=first-last on the bucket as it is NOW *)
@@ -215,6 +232,19 @@ Definition s3_step (pfx : str) (b : bucket) (o : op str) : bucket * obs :=
         | S3Ok v => OBytes v
         | S3Fail c => if str_eqb c gen_code_open_notfound then OErr NotFound else OErr ClientErr
         end)
+  | WriteCas p v =>
+    let k := gen_get_s3_key pfx p in
+    (* read_file_with_etag: the current tag, or none for a missing object; then the conditional PUT *)
+    let tag := match s3_get_object b k with S3Ok cur => Some cur | S3Fail _ => None end in
+    match s3_put_if b k tag v with
+    | Some b' => (b', OUnit)
+    | None => (b, OErr Conflict)
+    end
+  | ReadTag p =>
+    (b, match s3_get_object b (gen_get_s3_key pfx p) with
+        | S3Ok v => OBytes v
+        | S3Fail c => if str_eqb c gen_code_readtag_notfound then OErr NotFound else OErr ClientErr
+        end)
   end.
 
 (* objects of other tenants of the bucket: nothing under this table's root *)
@@ -238,14 +268,16 @@ Fixpoint add_dirs (ps : list key) (dirs : list key) : list key :=
 Definition missing (s : lstate) (k : key) : obs :=
   if is_dir s k then OErr IsDir else if below_file s k then OErr NotDir else OErr NotFound.
 
+Definition local_write (s : lstate) (k : key) (v : bytes) : lstate * obs :=
+  if below_file s k then (s, OErr NotDir)                                (* makedirs runs into a file *)
+  else let s' := {| lfiles := lfiles s; ldirs := add_dirs (proper_prefixes k) (ldirs s) |} in
+       if is_dir s' k then (s', OErr IsDir)                               (* os.replace onto a directory *)
+       else ({| lfiles := upsert key_eqb k v (lfiles s); ldirs := ldirs s' |}, OUnit).
+
 Definition local_step (s : lstate) (o : op key) : lstate * obs :=
   match o with
-  | Write k v =>
-    if below_file s k then (s, OErr NotDir)                                (* makedirs runs into a file *)
-    else let s' := {| lfiles := lfiles s; ldirs := add_dirs (proper_prefixes k) (ldirs s) |} in
-         if is_dir s' k then (s', OErr IsDir)                               (* os.replace onto a directory *)
-         else ({| lfiles := upsert key_eqb k v (lfiles s); ldirs := ldirs s' |}, OUnit)
-  | Read k => (s, match lookup key_eqb k (lfiles s) with Some v => OBytes v | None => missing s k end)
+  | Write k v | WriteCas k v => local_write s k v
+  | Read k | ReadTag k => (s, match lookup key_eqb k (lfiles s) with Some v => OBytes v | None => missing s k end)
   | Exists k => (s, OBool (is_file s k || is_dir s k))
   | ListDir d => (s, OList (if is_dir s d then map join (filter (under d) (map fst (lfiles s))) else []))
   | Delete k =>
@@ -281,7 +313,7 @@ Definition wf_keyb (k : key) : bool := match k with [] => false | _ => forallb w
 Definition wf_opb (o : op key) : bool :=
   match o with
   | ListDir d => forallb wf_segb d
-  | Write k _ | Read k | Exists k | Delete k | Size k | Mtime k | Stream k => wf_keyb k
+  | Write k _ | Read k | Exists k | Delete k | Size k | Mtime k | Stream k | WriteCas k _ | ReadTag k => wf_keyb k
   | Open k prog => wf_keyb k && forallb wf_ropb prog
   end.
 Definition prefix_freeb (ks : list key) : bool := forallb (fun a => forallb (fun b => negb (under a b)) ks) ks.
